@@ -2,6 +2,6 @@ SPECIFICATION Spec
 CONSTANTS MaxLen = 14
 EmitMod = 1
 Emit = TRUE
-Vocab <- VocabThorough
+Vocab <- VocabSim
 INVARIANTS TypeOK EmitCase
 CHECK_DEADLOCK FALSE
